@@ -158,6 +158,22 @@ func (e *Engine) invoke(s *State, f *Frame, x *ssa.Call, recv Value, m *types.Fu
 		pushed := e.callFunctionPushed(s, f, x, fn, cargs, probe)
 		return nil, pushed
 	}
+	_, isIface := recv.(VIface)
+	if op, isOp := recv.(VOpaque); isOp && strings.HasPrefix(op.Kind, "iface:") {
+		isIface = true
+	}
+	if isIface {
+		// receiver of unknown dynamic type: the contract of the interface method, if one is declared
+		if nt, ok := types.Unalias(x.Common().Value.Type()).(*types.Named); ok && nt.Obj().Pkg() != nil {
+			key := nt.Obj().Pkg().Name() + "." + nt.Obj().Name() + "." + m.Name()
+			if ic := e.l.iface[key]; ic != nil {
+				e.note("dynamic call " + key + ": the interface-method contract is used (every implementation under contract is checked to restate its postconditions)")
+				e.ifaceUsed[key] = true
+				r := e.applyContract(s, f, x, ic.carrier, ic.ct, append([]Value{recv}, args...), probe)
+				return r, false
+			}
+		}
+	}
 	op, ok := recv.(VOpaque)
 	if !ok {
 		panic(execError{fmt.Sprintf("invoke %s on %T at %s", m.Name(), recv, e.posOf(x.Pos()))})
